@@ -73,13 +73,18 @@ def case_strategy(draw):
             # column names that are not in lexicographic order in the frame ('user' before 'age', 'f10' before 'f2')
             'names': draw(st.sampled_from(['c', 'c', 'mixed'])),
             # columns stored with pandas' category dtype (string categories): values are the same strings
-            'dtype': draw(st.sampled_from(['str', 'str', 'category']))}
+            'dtype': draw(st.sampled_from(['str', 'str', 'category'])),
+            # cells of every other row are fresh string objects equal to the pooled ones (rows parsed from text next to rows taken from
+            # a vocabulary): equality of values is what counts, not object identity
+            'fresh_objects': draw(st.booleans())}
 
 
 def build(case):
     k = len(case['cols'])
     names = [f'c{i}' for i in range(k)] if case.get('names', 'c') == 'c' else ['user', 'age', 'f10', 'city', 'f2'][:k]
     data = dict(zip(names, case['cols']))
+    if case.get('fresh_objects'):
+        data = {nm: [(v + 'x')[:-1] if i % 2 else v for i, v in enumerate(col)] for nm, col in data.items()}
     order_names = list(names)
     order_names.insert(min(case['label_pos'], k), 'label')
     data['label'] = case['label']
@@ -204,7 +209,11 @@ def oracle(case, rec):
 def wide_case(draw):
     """Production-size batch: two id-like columns whose joint values are all distinct. Any digest narrower than the stated
     64 bits collides here with near certainty (32 bits: P(no collision) < 1e-4 at 3*10^5 rows)."""
-    pick = draw(st.integers(0, 3))
+    pick = draw(st.integers(0, 4))
+    if pick == 4:
+        # a frame with 260-320 feature columns (more positions than a byte numbers), a few rows, order 2 under a cap
+        return {'manycols': {'ncols': draw(st.integers(260, 320)), 'rows': draw(st.integers(6, 20)), 'cap': draw(st.integers(300, 700)),
+                             'seed': draw(st.integers(0, 2**32 - 1))}}
     if pick == 3:
         # medium cardinalities: 12-40 values per column (more value combinations than a byte / a short can number), str or category dtype
         return {'medium': {'cards': draw(st.lists(st.integers(12, 40), min_size=2, max_size=3)), 'rows': draw(st.integers(300, 1500)),
@@ -241,6 +250,34 @@ def oracle_wide(case, rec):
         if nd != nt_:
             raise Violation(f'{nt_} distinct (a,b,c,d) tuples over {card} ids per column but {nd} distinct interaction values',
                             kind='C10/wide-digest')
+        return
+    if 'manycols' in case:
+        g = case['manycols']
+        rng = np.random.Generator(np.random.PCG64(int(g['seed'])))
+        ncols, n = int(g['ncols']), int(g['rows'])
+        names = [f'f{j:03d}' for j in range(ncols)]
+        data = {nm: [f'v{int(v)}' for v in rng.integers(0, 4, size=n)] for nm in names}
+        df = pd.DataFrame(data)
+        df['label'] = ['0', '1'] * (n // 2) + ['0'] * (n % 2)
+        args = stubs.make_args(interaction_order=2, combination_number_upper_bound=int(g['cap']), heuristic='MI-numba-randomized')
+        stubs.reset_globals()
+        out = cr.compute_combined_features(df, args, stubs.PBar())
+        new_cols = list(out.columns[df.shape[1]:])
+        rec.nt(True, key=case)
+        rec.cls('frame>256-columns')
+        high = 0
+        for name in new_cols:
+            parts = name.split(' AND ')
+            if len(parts) != 2 or any(p not in data for p in parts):
+                raise Violation(f'appended column {name!r} is not a pair of feature columns', kind='C10/names')
+            high += any(int(p[1:]) >= 256 for p in parts)
+            t2v, v2t = {}, {}
+            for t, v in zip(zip(data[parts[0]], data[parts[1]]), out[name].tolist()):
+                if t2v.setdefault(t, v) != v or v2t.setdefault(v, t) != t:
+                    raise Violation(f'{name!r} in a frame of {ncols} feature columns: value pairs and interaction values are not in '
+                                    f'bijection (pair {t!r} -> {v!r}, seen before: {t2v.get(t)!r} / {v2t.get(v)!r})', kind='C10/iff')
+        if high:
+            rec.cls('interaction-uses-column-position>=256')
         return
     if 'medium' in case:
         g = case['medium']
